@@ -4,6 +4,7 @@ spec/global/GlobalSink.tla        routing state machine (attached / handle / thr
                                   sinks, per-sink received entries) with the property layer as invariants
                                   and action properties (Routed, ExactlyOne, PanicUnchanged, FallsBack,
                                   DetachFlushes); TLC: every history within the constants
+spec/global/GlobalSinkPair.tla    two globals of one process: product of two GlobalSink copies, Independent / DestStable
 spec/global/GlobalSinkReplay.tla  behaviour generators (exhaustive routing histories + probe matrix; walks)
 spec/global/GlobalDetach.tla      property layer of the concurrent part (appends racing attach / detach)
 spec/global/GlobalSinkRace.tla    lock-level model of try_append / attach / handle drop; TLC: refines
@@ -302,6 +303,8 @@ def run(prop, tier):
         if tier != "quick":
             r = vlib.model_check(SPECD, "GlobalSinkRace", "MC_race_live.cfg", timeout=3600)
             chk.add_model("GlobalSinkRace/live", r)
+        r = vlib.model_check(SPECD, "GlobalSinkPair", "MC_pair_quick.cfg" if tier == "quick" else "MC_pair.cfg", timeout=3600)
+        chk.add_model("GlobalSinkPair", r)
     # 2. R
     run_R(chk, prop, tier)
     # 3. T
